@@ -3301,6 +3301,7 @@ class Face3D(Base2DIn3D):
         _new_face = Face3D(self.boundary, self.plane, self.holes,
                            enforce_right_hand=False)
         self._transfer_properties(_new_face)
+        _new_face._vertices = self._vertices  # keep the merged loop (it is part of the key)
         _new_face._polygon2d = self._polygon2d
         _new_face._mesh2d = self._mesh2d
         _new_face._mesh3d = self._mesh3d
